@@ -1,6 +1,6 @@
 #!/bin/sh
 # process every /tmp/wt/<PID>/MUTANTS/<m> not yet recorded in /verif/seeded/<PID>-<m>/meta.json
-for d in /tmp/wt/*/MUTANTS/*/; do
+for d in $(for p in "$@"; do ls -d /tmp/wt/$p/MUTANTS/*/; done); do
   [ -f "$d/patch.diff" ] || continue
   m=$(basename "$d"); pid=$(basename $(dirname $(dirname "$d")))
   [ -f "/verif/seeded/$pid-$m/meta.json" ] && continue
